@@ -325,6 +325,16 @@ fn multi_start(prop: PathProp, r: &mut Sm, sc: &mut Scenario, b: &mut Batch) {
     if !matches!(prop, PathProp::C01 | PathProp::C02 | PathProp::C03 | PathProp::C05) || !r.bool(0.12) {
         return;
     }
+    add_extra_starts(r, sc, b);
+}
+
+pub fn add_extra_starts_to(r: &mut Sm, problem: &mut crate::world::Problem, b: &mut Batch) {
+    let mut sc = Scenario { problem: problem.clone(), params: crate::world::PParams { kind: PKind::Rrt, max_distance: 1.0, goal_bias: 0.0, search_radius: 1.0, connection_radius: 1.0, seed: None }, iters: 0, prm_samples: 0, script: None, query_budget: 0 };
+    add_extra_starts(r, &mut sc, b);
+    *problem = sc.problem;
+}
+
+fn add_extra_starts(r: &mut Sm, sc: &mut Scenario, b: &mut Batch) {
     let spec = sc.problem.spec.clone();
     with_kit!(spec, K, kit => {
         let Ok(ev) = WorldEval::<K>::new(&kit, &sc.problem.world) else { return };
